@@ -3,8 +3,10 @@ Inductive rcls :=
 | RcEOF      (* io.EOF *)
 | RcFatal    (* the format's own fatal error type (ErrInvalidHeader, ErrInvalidEDI, ...) *)
 | RcFailed   (* errs.ErrTransformFailed *)
+| RcLatched  (* the reader's own latched input-I/O error instance (old csv reader: r.readErr) *)
 | RcPlain.   (* any other error value *)
 
 Definition rc_is_eof (c : rcls) : bool := match c with RcEOF => true | _ => false end.
 Definition rc_is_fatal (c : rcls) : bool := match c with RcFatal => true | _ => false end.
 Definition rc_is_failed (c : rcls) : bool := match c with RcFailed => true | _ => false end.
+Definition rc_is_latched (c : rcls) : bool := match c with RcLatched => true | _ => false end.
